@@ -89,7 +89,10 @@ def compare_len_enc(ctx, rule, label, prog, enc_path, len_path, leaf_crates=(), 
                 continue
             sums_l = dict(lo.st.extra.get('sums') or ())
             sums_e = dict(notes)
-            if total != lo.value and expand_sums(total, sums_e) == expand_sums(lo.value, sums_l):
+            def nostar(v):
+                # `elem(x)` and `elem(x)*` (the element / the element behind a reference) have the same length
+                return Int([(re.sub(r'\*+(?=\))', '', s_), k_) for s_, k_ in v.terms], v.c) if isinstance(v, Int) else v
+            if total != lo.value and nostar(expand_sums(total, sums_e)) == nostar(expand_sums(lo.value, sums_l)):
                 # the same header plus the same per-element term: one side sums over the collection with an iterator adaptor, the
                 # other adds the element's length in an explicit loop (one representative iteration) - the same function
                 ctx.ok(rule, key + '|loop')
@@ -102,9 +105,6 @@ def compare_len_enc(ctx, rule, label, prog, enc_path, len_path, leaf_crates=(), 
                     continue
                 ctx.violation(rule, label + '|mismatch|' + key.split('|', 1)[1], 'on {%s}: cbor_len = %r but encode writes %r bytes (items %s)' % (key.split('|', 1)[1], lo.value, total, items[:8]), where)
                 continue
-            def nostar(v):
-                # `elem(x)` and `elem(x)*` (the element / the element behind a reference) have the same length
-                return Int([(re.sub(r'\*+(?=\))', '', s_), k_) for s_, k_ in v.terms], v.c) if isinstance(v, Int) else v
             bad = [k for k in sums_l if k in sums_e and nostar(sums_l[k]) != nostar(sums_e[k])]
             if bad:
                 ctx.violation(rule, label + '|element', 'per-element length %r differs from per-element encoding %r' % (sums_l[bad[0]], sums_e[bad[0]]), where)
